@@ -1,7 +1,11 @@
 //! wfsim: deterministic simulation harness for Nashtare/winterfell.
 //! usage: wfsim <property> quick|thorough | --replay <file> | --digest <n> | --one <arm> <run>
 
+mod c01;
 mod c13;
+mod dispatch;
+mod pipe;
+mod proto;
 mod simio;
 
 fn main() {
@@ -11,6 +15,7 @@ fn main() {
         std::process::exit(2);
     };
     let spec = match id.as_str() {
+        "C01" => c01::spec(),
         "C13" => c13::spec(),
         _ => {
             eprintln!("HARNESS-ERROR unknown property {id} for this build");
